@@ -70,17 +70,24 @@ theorem inject_without_pending (tag : Str) (consume : Bool) (s : Session) (h : N
       cases s
       simp_all
 
-/-- **With safe-mode bit 4 the lines are ignored altogether**: a Block Attributes line is accepted (and so
-    produces no output) without any effect on the session. -/
-theorem attributes_line_ignored_with_bit4 (rec : Rec) (env : Env) (attrs : Str) (s : Session)
-    (h : pyAnd s.safeMode 4 ≠ 0) : wp (battrParse rec env attrs) (fun r s' => r = true ∧ s' = s) s := by
+/-- **With safe-mode bit 4 the lines are ignored altogether**: whatever the line holds, nothing of it reaches the
+    session - no class name, id, css, attribute or option becomes pending, no definition or option changes; only the
+    message log and the placeholder queue can differ (the silent macro pass that decides whether the line *is* a Block
+    Attributes line may span-render a `$$n` parameter).  A line that only starts like one is refused (`false`: it is
+    paragraph text, F49), as in every other safe mode. -/
+theorem attributes_line_ignored_with_bit4 (rec : Rec) (env : Env) (hs : ∀ x, Pres Frame (rec.spans x)) (attrs : Str)
+    (s : Session) (h : pyAnd s.safeMode 4 ≠ 0) : wp (battrParse rec env attrs) (fun _ s' => Frame s s') s := by
   have hb : (pyAnd s.safeMode 4 != 0) = true := by simpa using h
+  have hm := macrosRender_frame rec env hs
   unfold battrParse skipBlockAttributes
-  wp_step; wp_step; wp_step; wp_step
-  wp_step
-  · wp_step
-    exact ⟨rfl, rfl⟩
-  · next hn => exact absurd hb hn
+  simp only [bind_assoc, pure_bind]
+  apply wp_bind
+  apply wp_get
+  simp only [hb, if_true]
+  apply wp_bind
+  refine wp_mono (hm attrs true s) ?_
+  intro text s1 hf
+  repeat (any_goals (first | wp_step | exact hf))
 
 /-- **Block options alter the processing of one delimited block only**: every delimited-block step ends with the
     pending options cleared, skipped or not, whatever the block is. -/
